@@ -93,6 +93,11 @@ def _transport_var_for(resp: str, L=None):
         if L is not None and isinstance(e, ast.Name):
             e = L.inline(e)  # a local holding <response>.status_code
         d = dotted(e)
+        # `<alias>.status_code` where the alias is (only ever) bound to the response: `response = answer`
+        if L is not None and isinstance(e, ast.Attribute) and isinstance(e.value, ast.Name) and e.value.id != resp:
+            base = L.inline(e.value)
+            if isinstance(base, ast.Name) and base.id == resp:
+                d = f"{resp}.{e.attr}"
         if d == f"{resp}.status_code":
             return "int"
         if d == resp:
